@@ -534,6 +534,10 @@ class _Metadata:
         object.__setattr__(self, '_fields', fields)
 
     def __getattr__(self, name):
+        # copy and pickle create the instance without calling __init__ and then
+        # probe it for special methods: answer those lookups the normal way.
+        if name == '_fields' or name.startswith('__'):
+            raise AttributeError(name)
         return self._fields.get(name)
 
     def __setattr__(self, name, value):
